@@ -4,6 +4,7 @@ import SJ.Proofs.SourceLevelD
 import SJ.Proofs.SourceLevelE
 import SJ.Proofs.SourceLevelF
 import SJ.Proofs.SourceLevelH
+import SJ.Proofs.SourceLevelI
 set_option linter.unusedVariables false
 /-
 C12 — source level. The theorems of Properties/C12.lean composed with the source ties of DESIGN §6.3: each statement
@@ -418,5 +419,25 @@ theorem C12_source_interface (pj : PJ) (hb : BufOK pj) (hsz : pj.tape.size < 2^6
     ∃ s, runFun goFuns goIter_Interface F ⟨envOf "i" i ++ bufEnv pj, pj.tape⟩ =
       .ret s [.iface (toIVal v), .bool false] ∧ s.tape = pj.tape ∧ iterAt s.env "i" = some i :=
   SJ.SourceLevelH.source_interface_of_node pj hb hsz v i hok ht hon hl F hF
+
+open SJ SJ.Generated SJ.GoSem SJ.GoIter SJ.GoObject SJ.Layout SJ.WalkLayout SJ.ParseDefs SJ.MarshalExact SJ.GoMarshal SJ.SourceLevelI SJ.TrimEdge SJ.GoPJForEach SJ.Lookup in
+/-- **Parse, then `Interface()`, source level (E2).**  ASSUMED: the trimmed input is shorter than 2^50 bytes (`SizeOK`) and
+    the parser model (`Parse` or `ParseND`, either string mode) returns the tape `pj`.  CONCLUDED: the tape holds located,
+    tight root values `lvs` (erased: the document the reference decoder reads off the tape), and for every root value
+    `lv ∈ lvs`, every iterator `it` standing on it with its view inside the tape (`RootIter pj lv it`: what
+    `ParsedJson.ForEach` hands out, see `parse_then_forEach_source`) and every interpreter fuel `F ≥ 21·n + 72` (`n` = length
+    of the trimmed input), running the regenerated `Iter.Interface` returns `toIVal lv` — objects as maps with the last
+    duplicate winning, arrays in order, numbers by their tag — and a nil error, leaves the tape unchanged and the iterator
+    where it was.
+    Discharged from the parser facts (`parse_side_conditions`): `BufOK pj`, `pj.tape.size < 2^63`, and the tie's fuel
+    `goFuel pj (fuelOf pj) = 7·len(tape) + 58 ≤ 21·n + 72`.  Nothing about the tape remains as a hypothesis. -/
+theorem C12_source_parse_then_interface (cfg : Cfg) (nd : Bool) (input : Bytes) (pj : PJ) (hsz : SizeOK (trimSpace input))
+    (h : parseAny cfg nd input = .ok pj) :
+    ∃ lvs : List LVal, OkRoots pj lvs 0 ∧ (∀ v ∈ lvs, Tight v) ∧
+      decodeTapeD pj = some ((lvs.map erase).map DecodeSound.toOVal) ∧
+      ∀ lv ∈ lvs, ∀ it : Iter, RootIter pj lv it → ∀ F : Nat, 21 * (trimSpace input).size + 72 ≤ F →
+        ∃ s, runFun goFuns goIter_Interface F ⟨envOf "i" it ++ bufEnv pj, pj.tape⟩ =
+          .ret s [.iface (toIVal lv), .bool false] ∧ s.tape = pj.tape ∧ iterAt s.env "i" = some it :=
+  SJ.SourceLevelI.parse_then_interface_source cfg nd input pj hsz h
 
 end SJ.Properties.C12
